@@ -77,6 +77,7 @@ type scenOut struct {
 	goroutines int // worker goroutines that really ran
 	outSize    int // size of the compared outputs
 	notes      []string
+	asks       []pAsk // model requests, made by the main goroutine afterwards
 }
 
 func (o *scenOut) failf(class, format string, a ...any) {
@@ -90,6 +91,7 @@ func (o *scenOut) absorb(p *scenOut) {
 	o.goroutines += p.goroutines
 	o.outSize += p.outSize
 	o.notes = append(o.notes, p.notes...)
+	o.asks = append(o.asks, p.asks...)
 }
 
 // group runs worker goroutines, each with its own slot and a recover.
@@ -289,6 +291,9 @@ func runInst(c *core.Ctx, in inst) {
 			if len(c.Res.Notes) < 40 {
 				c.Note("%s: %s", bucket, n)
 			}
+		}
+		for _, a := range out.asks {
+			pAnswer(c, in, a)
 		}
 		c.Case(bucket, string(key), out.goroutines >= 2 && out.outSize > 0)
 	} else {
@@ -2669,7 +2674,7 @@ func runWithDeadline(cmd *exec.Cmd, d time.Duration) error {
 
 func run(c *core.Ctx) {
 	c.Res.Exhaustive = false
-	c.Res.Rule = "stress exploration, not enumeration: for GOMAXPROCS in {1,2,4,16} every scenario instance draws a seed from the harness PRNG and derives everything from it (files of 500..3000 rows with a unique row id, optional, string, dictionary, byte array, list and double columns, pages of 64..256 bytes, 2-4 row groups, bloom filters, all six codecs, data pages v1/v2; gen.Case schemas for the writers; 4..36 goroutines with seeds of their own). Scenarios: A many goroutines on one File opened lazily (SkipPageIndex+SkipBloomFilters; index racers meet behind a barrier at every fresh chunk; plain, yielding and sleeping io.ReaderAt) or eagerly; B independent writers/readers/buffers; C one goroutine per ColumnWriter; D concurrently filled row groups committed in order; E async read mode histories with seeks (storms ReadPage, [sleep|yield], SeekToRow far away [twice], ReadPage); F one fresh *Schema first used inside the race; G pages retained and handed to other goroutines; mixed = A+B+D+E+G at once. Each instance first computes the serial answer of the same work and compares bytes (sha256), canonical rows, page layout, index and bloom filter contents and pointer identity. A, E, G are also run alone with the buffer event sink installed; the traces are checked against the per-buffer reference counting automaton (and the extracted model). A case = one scenario instance; non-trivial = at least 2 worker goroutines ran and the compared output is non-empty; distinct by (scenario, GOMAXPROCS, seed, scale)."
+	c.Res.Rule = "stress exploration, not enumeration: for GOMAXPROCS in {1,2,4,16} every scenario instance draws a seed from the harness PRNG and derives everything from it (files of 500..3000 rows with a unique row id, optional, string, dictionary, byte array, list and double columns, pages of 64..256 bytes, 2-4 row groups, bloom filters, all six codecs, data pages v1/v2; gen.Case schemas for the writers; 4..36 goroutines with seeds of their own). Scenarios: A many goroutines on one File opened lazily (SkipPageIndex+SkipBloomFilters; index racers meet behind a barrier at every fresh chunk; plain, yielding and sleeping io.ReaderAt) or eagerly; B independent writers/readers/buffers; C one goroutine per ColumnWriter; D concurrently filled row groups committed in order; D-parent-pending programs of 1-2 rounds over 1-4 row groups (reused after Commit) in which the parent writer itself receives rows before, while and after the row groups are filled - through WriteRows, through its ColumnWriters (WriteRowValues, one goroutine per column) or through the typed Write, alone or mixed, with Flush calls - on NewGenericWriter[any]/NewWriter with gen.Case schemas and NewGenericWriter[T]/NewWriter with a struct type: besides serial = concurrent bytes, the row groups and rows read back must be those of the serial specification (pending rows are flushed before a committed row group; equal to what one writer produces from WriteRows/Flush alone and to commit_all of the extracted model), failing programs are shrunk on the serial run; E async read mode histories with seeks (storms ReadPage, [sleep|yield], SeekToRow far away [twice], ReadPage); F one fresh *Schema first used inside the race; G pages retained and handed to other goroutines; mixed = A+B+D+E+G at once. Each instance first computes the serial answer of the same work and compares bytes (sha256), canonical rows, page layout, index and bloom filter contents and pointer identity. A, E, G are also run alone with the buffer event sink installed; the traces are checked against the per-buffer reference counting automaton (and the extracted model). A case = one scenario instance; non-trivial = at least 2 worker goroutines ran and the compared output is non-empty; distinct by (scenario, GOMAXPROCS, seed, scale)."
 	scale := c.N(1, 2)
 	procs := []int{1, 2, 4, 16}
 	rounds := c.N(1, 5)
@@ -2707,7 +2712,7 @@ func run(c *core.Ctx) {
 			vmWrite(c)
 		}
 	}
-	order := []string{"A-lazy", "A-eager", "B-independent", "C-column-writers", "D-row-groups", "E-async", "F-shared-schema", "G-retain-release", "mixed"}
+	order := []string{"A-lazy", "A-eager", "B-independent", "C-column-writers", "D-row-groups", "D-parent-pending", "E-async", "F-shared-schema", "G-retain-release", "mixed"}
 	sampled := 0
 	for round := 0; round < rounds; round++ {
 		for _, p := range procs {
@@ -2724,6 +2729,9 @@ func run(c *core.Ctx) {
 				}
 			}
 		}
+	}
+	if pendingStats.asked > 0 {
+		c.Note("row_groups_compared_with_model: %d programs of D-parent-pending, the row groups of the file equal commit_all of the extracted model in %d", pendingStats.asked, pendingStats.agreed)
 	}
 	c.Note("stress runs explore schedules (GOMAXPROCS %v, barriers, yielding readers); they are exploration, not proof: schedules that were not observed are not covered", procs)
 	if raceCh != nil {
@@ -2752,6 +2760,9 @@ func replay(c *core.Ctx, raw json.RawMessage) {
 	}
 	if in.P <= 0 {
 		in.P = 4
+	}
+	if in.Scenario == "D-parent-pending" && pReplay(c, in, raw) {
+		return
 	}
 	// schedules differ from run to run: repeat the instance a few times
 	for i := 0; i < 5; i++ {
